@@ -1091,9 +1091,9 @@ func RuleT1(c *Ctx) {
 				why = append(why, "nbChunks is not recomputed as a multiple of nbSplits")
 			}
 			ns := nbSplits.Edges[i]
-			if sh, isSh := ns.(*ssa.BinOp); isSh && sh.Op == token.SHL && sh.X == ssa.Value(nbSplits) {
-				if k, isK := core.ConstInt(sh.Y); isK && k >= 1 {
-					continue // progress: nbSplits doubles
+			if sh, isSh := ns.(*ssa.BinOp); isSh && sh.X == ssa.Value(nbSplits) {
+				if k, isK := core.ConstInt(sh.Y); isK && ((sh.Op == token.SHL && k >= 1) || (sh.Op == token.MUL && k >= 2)) {
+					continue // progress: nbSplits at least doubles
 				}
 			}
 			if ns == ssa.Value(nbSplits) {
